@@ -182,3 +182,85 @@ def check_c06(tier, seed, replay=None, selftest=False):
 def check_c11(tier, seed, replay=None, selftest=False):
     chk = _hash_check("C11", tier, seed, replay, 24, 400, 0.3, ", with refused submits (bad flags, in-flight context, continue-after-complete) injected at random points")
     return chk if isinstance(chk, int) else chk.finish()
+
+
+# ------------------------------------------------------------------------------------------ AES
+import gen_aes
+AES_SRCS = ["main.c", "core.c", "vcall.S", "drv_aes.c"]
+
+
+def merge_jobs(jobs, key=lambda n: "-".join(n.split("-")[:2]), driver="aes", prelude=""):
+    merged = {}
+    for name, bs in jobs.items():
+        merged.setdefault(key(name), []).extend(bs)
+    return [{"name": k, "behaviours": v, "driver": driver, "prelude": prelude} for k, v in sorted(merged.items())]
+
+
+def aes_check(pid, tier, seed, replay, make_jobs, rule, level="model_checking", props=None, model=None, prelude=""):
+    chk = verif.Check(pid, level, tier, seed)
+    props = props or {pid}
+    exe = build.build_driver("aes", AES_SRCS)
+    if replay:
+        lines = [x for x in open(replay).read().splitlines() if x and not x.startswith("#")]
+        outs = run_jobs([{"name": "replay", "behaviours": [lines]}], exe, "TraceAes")
+        collect(chk, outs, props, marker="Mark")
+        chk.cov.update({"states": 1, "transitions": 1, "traces_validated_against_impl": 1, "samples": [replay], "evaluations": 1, "distinct_nontrivial": 2})
+        return chk.finish()
+    rng = random.Random(seed * 104729 + int(pid[1:]))
+    jobs = make_jobs(rng, tier)
+    if prelude:
+        for j in jobs:
+            j["behaviours"] = [[prelude] + b for b in j["behaviours"][:1]] + j["behaviours"][1:]
+    if model:
+        model_check(chk, model)
+    outs = run_jobs(jobs, exe, "TraceAes")
+    nb, ne = collect(chk, outs, props, marker="Mark")
+    _finish_traces(chk, jobs, outs, nb, ne, rule)
+    chk.cov["distinct_nontrivial"] = len({" ".join(b[-1].split()[:4] + b[-1].split()[-8:]) + str(len(b)) + b[0] for j in jobs for b in j["behaviours"]})
+    chk.assumptions += ["TLC + Java primitive overrides (self-tested at setup: FIPS 197, SP 800-38A/D, IEEE 1619 vectors)",
+                        "host CPU executes every family", "data/key/IV bytes are seeded pattern data; the kernels have no data-dependent control flow"]
+    return chk.finish()
+
+
+@reg("C02")
+def check_c02(tier, seed, replay=None, selftest=False):
+    def mk(rng, tier):
+        return merge_jobs(gen_aes.gcm_oneshot_behaviours(rng, 14 if tier == "quick" else 0, full=(tier != "quick")))
+    return aes_check("C02", tier, seed, replay, mk,
+                     "one evaluation = one one-shot GCM call (family x nt x key size x direction x length class x AAD length x tag "
+                     "length x placement/alignment) whose ciphertext and tag TLC recomputes from AesModes!GcmEnc/GcmDec; lengths cover "
+                     "every block count 0..66 with every residue, the counter-wrap region (240..264 blocks) and 8 KiB; thorough "
+                     "enumerates the whole length set per (family, nt, key, direction)")
+
+
+@reg("C07")
+def check_c07(tier, seed, replay=None, selftest=False):
+    def mk(rng, tier):
+        return merge_jobs(gen_aes.gcm_stream_jobs(rng, 10 if tier == "quick" else 160))
+    return aes_check("C07", tier, seed, replay, mk,
+                     "one behaviour = init / update* / finalize on one stream; update lengths from the 16x(0..16,17,32,127..129,255..257) "
+                     "carry table, sub-block runs that complete a block exactly, counter-wrap crossings, random compositions; nt streams "
+                     "use 64-byte multiples on 64-aligned buffers; TLC checks each update's output against the key stream at the spec's "
+                     "byte position and the final tag against the one-shot tag of the concatenation")
+
+
+@reg("C03")
+def check_c03(tier, seed, replay=None, selftest=False):
+    def mk(rng, tier):
+        return merge_jobs(gen_aes.xts_jobs(rng, 10 if tier == "quick" else 0, full=(tier != "quick")))
+    return aes_check("C03", tier, seed, replay, mk,
+                     "one evaluation = one XTS call (family x key size x direction x raw/expanded x length x placement); lengths 16..1055 "
+                     "(every tail of the by-8 / by-16 loops with and without stealing) + 4 KiB/64 KiB, and lengths 0..15 for the no-touch clause; "
+                     "output compared with AesModes!XtsEnc/XtsDec (IEEE 1619 in TLA+)")
+
+
+@reg("C04")
+def check_c04(tier, seed, replay=None, selftest=False):
+    def mk(rng, tier):
+        j = gen_aes.cbc_jobs(rng, 12 if tier == "quick" else 0, full=(tier != "quick"))
+        j.update(gen_aes.kexp_jobs(rng, 8 if tier == "quick" else 200))
+        return merge_jobs(j)
+    return aes_check("C04", tier, seed, replay, mk,
+                     "key expansion: schedules compared byte for byte with Aes!EncSchedule/DecSchedule (FIPS 197 5.2 written in TLA+), "
+                     "families sse/avx + dispatched; CBC: every multiple of 16 up to 640 bytes and around the 64-block loop boundaries, "
+                     "enc x4/x8, dec sse/avx/vaes_avx512, 128/192/256, in place and out of place, compared with AesModes!CbcEnc/CbcDec")
